@@ -98,7 +98,7 @@ def conn_view(toks):
             cut[sel] = True
         elif x.startswith("BB "):
             cut[sel] = True
-            _, _, n, h = x.split()
+            _, _, n, h, _ = x.split()
             reqs += [((int(h, 16) + j) & 0xffffffff, cur) for j in range(int(n))]
     return reqs, emitted, cut
 
@@ -154,7 +154,7 @@ def multi_schedule(r, adversarial=False):
     return toks
 
 
-ARITY = {"BB": 3, "R": 1, "G": 1, "W": 0, "WE": 0, "D": 1, "T": 1, "CA": 0, "CF": 0, "SEL": 1, "P": 1, "PS": 2, "PG": 3, "PT": 2, "B": 1}
+ARITY = {"BB": 4, "R": 1, "G": 1, "W": 0, "WE": 0, "D": 1, "T": 1, "CA": 0, "CF": 0, "SEL": 1, "P": 1, "PS": 2, "PG": 3, "PT": 2, "B": 1}
 
 
 def regress_schedules(pid):
@@ -434,7 +434,7 @@ def check_C12(chk, tier, seed):
         cases.append((line(toks), toks, "multi"))
     # the reader's shutdown racing a burst of sends issued from one task without a pause (the runtime decides where the
     # sender yields: after 64, 128, ... operations): every send must fail or hand out a future that fails
-    for k in range(24 if tier == "quick" else 400):
+    for k in range(32 if tier == "quick" else 400):
         r = rng.fork(f"b{k}")
         toks = []
         for i in range(r.range(0, 3)):
@@ -443,7 +443,7 @@ def check_C12(chk, tier, seed):
                 toks.append(f"P {hx(0x40 + i)}")
         for _ in range(r.range(0, 4)):
             toks.append(f"T {hx(r.choice([0, 1, 1000]))}")            # shifts where the cooperative budget runs out
-        toks.append(f"BB {r.choice(['eof', 'reset', 'garbage'])} {r.choice([70, 130, 200, 300])} {hx(0x1000)}")
+        toks.append(f"BB {r.choice(['eof', 'reset', 'garbage'])} {r.choice([70, 130, 200])} {hx(0x1000)} {k % 8}")
         cases.append((line(toks), toks, "burst"))
     lines = [c[0] for c in cases]
     impl, model = eng.run(lines)
